@@ -1056,6 +1056,221 @@ fn cursor_init(e: End) -> Content {
     c
 }
 
+
+// ------------------------------------------------------------------------------------
+// (c) ONE reader / writer object kept alive across a whole sequence of accesses (state kept
+// inside the stream object — a look-ahead window, a cached bound — must not change results)
+
+#[derive(Clone, Copy, Debug, PartialEq, Eq)]
+enum Sop {
+    U8,
+    U16,
+    U32,
+    I16,
+    F32,
+    Bytes(usize),
+    Skip(usize),
+    SeekRel(isize),
+}
+const SOPS: [Sop; 11] = [Sop::U8, Sop::U16, Sop::U32, Sop::I16, Sop::F32, Sop::Bytes(3), Sop::Bytes(5), Sop::Skip(1), Sop::Skip(61), Sop::SeekRel(-2), Sop::SeekRel(62)];
+
+fn stream_bytes(size: usize) -> Vec<u8> {
+    (0..size).map(|i| ((i * 37 + i / 256 * 11 + 5) % 251) as u8).collect()
+}
+
+/// run one sequence on a single reader and a single writer; compare every step with the positional model
+fn run_stream_seq(a: &mut BinArchive, data: &mut Vec<u8>, e: End, start: usize, seq: &[Sop], t: &mut Tally) -> Option<(String, String)> {
+    let size = data.len();
+    // ---- reader
+    {
+        let mut r = mila::BinArchiveReader::new(a, start);
+        let mut cur = start;
+        for (k, op) in seq.iter().enumerate() {
+            t.calls += 1;
+            let width = match op {
+                Sop::U8 => 1,
+                Sop::U16 | Sop::I16 => 2,
+                Sop::U32 | Sop::F32 => 4,
+                Sop::Bytes(n) => *n,
+                Sop::Skip(n) => {
+                    r.skip(*n);
+                    cur += n;
+                    continue;
+                }
+                Sop::SeekRel(d) => {
+                    cur = (cur as isize + d).max(0) as usize;
+                    r.seek(cur);
+                    continue;
+                }
+            };
+            let ok = in_range(cur, width, size);
+            let got: Result<Vec<u8>, String> = match op {
+                Sop::U8 => r.read_u8().map(|v| vec![v]).map_err(|x| x.to_string()),
+                Sop::U16 => r.read_u16().map(|v| enc(e, v as u32, 2)).map_err(|x| x.to_string()),
+                Sop::I16 => r.read_i16().map(|v| enc(e, v as u16 as u32, 2)).map_err(|x| x.to_string()),
+                Sop::U32 => r.read_u32().map(|v| enc(e, v, 4)).map_err(|x| x.to_string()),
+                Sop::F32 => r.read_f32().map(|v| enc(e, v.to_bits(), 4)).map_err(|x| x.to_string()),
+                Sop::Bytes(n) => r.read_bytes(*n).map_err(|x| x.to_string()),
+                _ => unreachable!(),
+            };
+            match (&got, ok) {
+                (Ok(b), true) if *b == data[cur..cur + width] => cur += width,
+                (Err(_), false) => {}
+                _ => {
+                    return Some((
+                        format!("long-lived-reader:{:?}", op).split('(').next().unwrap().to_string(),
+                        format!("one reader on a {}-byte archive started at {}, sequence {:?}: step {} ({:?}) at cursor {} returned {:?}, the positional access gives {}", size, start, seq, k, op, cur, got.as_ref().map(|b| util::hex(b)), if ok { util::hex(&data[cur..cur + width]) } else { "Err".into() }),
+                    ))
+                }
+            }
+            if r.tell() != cur {
+                return Some(("long-lived-reader:cursor".into(), format!("one reader started at {}, sequence {:?}: after step {} the cursor is {} instead of {}", start, seq, k, r.tell(), cur)));
+            }
+        }
+    }
+    // ---- writer (values derived from the step index, archive compared with the model afterwards)
+    {
+        let mut w = mila::BinArchiveWriter::new(a, start);
+        let mut cur = start;
+        for (k, op) in seq.iter().enumerate() {
+            t.calls += 1;
+            let v: u32 = 0xC0DE_0000u32.wrapping_add((k as u32) << 8).wrapping_add(start as u32).rotate_left(k as u32 * 7);
+            let (width, bytes): (usize, Vec<u8>) = match op {
+                Sop::U8 => (1, vec![v as u8]),
+                Sop::U16 | Sop::I16 => (2, enc(e, v & 0xFFFF, 2)),
+                Sop::U32 => (4, enc(e, v, 4)),
+                Sop::F32 => (4, enc(e, f32::from_bits(v).to_bits(), 4)),
+                Sop::Bytes(n) => (*n, (0..*n).map(|i| (v as u8).wrapping_add(i as u8)).collect()),
+                Sop::Skip(n) => {
+                    w.skip(*n);
+                    cur += n;
+                    continue;
+                }
+                Sop::SeekRel(d) => {
+                    cur = (cur as isize + d).max(0) as usize;
+                    w.seek(cur);
+                    continue;
+                }
+            };
+            let ok = in_range(cur, width, size);
+            let got = match op {
+                Sop::U8 => w.write_u8(v as u8),
+                Sop::U16 => w.write_u16(v as u16),
+                Sop::I16 => w.write_i16(v as u16 as i16),
+                Sop::U32 => w.write_u32(v),
+                Sop::F32 => w.write_f32(f32::from_bits(v)),
+                Sop::Bytes(_) => w.write_bytes(&bytes),
+                _ => unreachable!(),
+            }
+            .map_err(|x| x.to_string());
+            match (&got, ok) {
+                (Ok(()), true) => {
+                    // f32 NaN payloads survive bit for bit (C04 grid decides that); here the value is written as given
+                    data[cur..cur + width].copy_from_slice(&bytes);
+                    cur += width;
+                }
+                (Err(_), false) => {}
+                _ => return Some((format!("long-lived-writer:{:?}", op).split('(').next().unwrap().to_string(), format!("one writer on a {}-byte archive started at {}, sequence {:?}: step {} ({:?}) at cursor {} returned {:?} but the access is {}", size, start, seq, k, op, cur, got, if ok { "inside the data" } else { "outside the data" }))),
+            }
+            if w.tell() != cur {
+                return Some(("long-lived-writer:cursor".into(), format!("one writer started at {}, sequence {:?}: after step {} the cursor is {} instead of {}", start, seq, k, w.tell(), cur)));
+            }
+        }
+    }
+    match a.read_bytes(0, size) {
+        Ok(b) if b == &data[..] => None,
+        _ => Some(("long-lived-writer:bytes".into(), format!("after the writer sequence {:?} from {} the archive bytes differ from the model", seq, start))),
+    }
+}
+
+fn stream_case(size: usize, e: End, start: usize, seq: &[Sop], t: &mut Tally) -> Option<(String, String)> {
+    let mut data = stream_bytes(size);
+    let r = util::catch(|| {
+        let mut a = BinArchive::new(arch::endian(e));
+        a.allocate_at_end(size);
+        a.write_bytes(0, &data).map_err(|x| x.to_string())?;
+        Ok::<_, String>(run_stream_seq(&mut a, &mut data, e, start, seq, t))
+    });
+    match r {
+        Err(p) => Some((format!("panic@{}:long-lived-stream", p.location), format!("sequence {:?} from {} on a {}-byte archive panicked: {}", seq, start, size, p.message))),
+        Ok(Err(x)) => Some(("machinery:stream-setup".into(), x)),
+        Ok(Ok(v)) => v,
+    }
+}
+
+/// all sequences of ≤ depth stream operations from EVERY start position of a 200-byte archive,
+/// and from the positions around every power of two of a 70 000-byte archive
+fn run_streams(tier: Tier) -> Tally {
+    let depth = tier.pick(3usize, 4usize);
+    let mut jobs: Vec<(usize, End, usize)> = Vec::new();
+    for e in [End::Little, End::Big] {
+        for start in 0..=202usize {
+            jobs.push((200, e, start));
+        }
+        let mut p = 64usize;
+        while p <= 65_536 {
+            for d in [-5isize, -3, -2, -1, 0, 1] {
+                jobs.push((70_000, e, (p as isize + d) as usize));
+            }
+            p *= 2;
+        }
+        for start in [69_990usize, 69_996, 69_999, 70_000] {
+            jobs.push((70_000, e, start));
+        }
+    }
+    jobs.par_iter()
+        .fold(Tally::new, |mut t, (size, e, start)| {
+            for len in 1..=depth {
+                for idx in util::odometer(SOPS.len(), len) {
+                    let seq: Vec<Sop> = idx.iter().map(|i| SOPS[*i]).collect();
+                    t.cases += 1;
+                    t.nontrivial += 1;
+                    if let Some((sig, summary)) = stream_case(*size, *e, *start, &seq, &mut t) {
+                        t.violate(sig, summary, json!({"part": "stream", "size": size, "endian": format!("{:?}", e), "start": start, "seq": idx}));
+                    }
+                }
+            }
+            t
+        })
+        .reduce(Tally::new, Tally::merge)
+}
+
+/// stream read_bytes / positional read_bytes with counts around 2^16, 2^20 and 2^24 on a 17 MiB archive
+fn run_huge_counts(t: &mut Tally) -> Vec<(String, String, Value)> {
+    let mut out = Vec::new();
+    let size = 17 * 1024 * 1024 + 3;
+    let r = util::catch(|| {
+        let mut a = BinArchive::new(mila::Endian::Little);
+        a.allocate_at_end(size);
+        let _ = a.write_bytes(size - 4, &[1, 2, 3, 4]);
+        let _ = a.write_bytes(0, &[9, 8, 7]);
+        let mut bad = Vec::new();
+        for count in [65_535usize, 65_536, 65_537, (1 << 20) - 1, 1 << 20, (1 << 20) + 1, (1 << 24) - 1, 1 << 24, (1 << 24) + 1, size - 1, size] {
+            for start in [0usize, 1, 3] {
+                let ok = in_range(start, count, size);
+                let pos = a.read_bytes(start, count).map(|b| (b.len(), b[0], b[b.len() - 1])).map_err(|x| x.to_string());
+                let mut rd = mila::BinArchiveReader::new(&a, start);
+                let st = rd.read_bytes(count).map(|b| (b.len(), b[0], b[b.len() - 1])).map_err(|x| x.to_string());
+                if pos.is_ok() != ok || st.is_ok() != ok || (ok && (pos != st || pos.as_ref().unwrap().0 != count)) || (ok && rd.tell() != start + count) {
+                    bad.push(format!("read_bytes({}, {}) on a {}-byte archive: positional {:?}, stream {:?} (cursor {}), expected {}", start, count, size, pos, st, rd.tell(), if ok { "Ok" } else { "Err" }));
+                }
+            }
+        }
+        bad
+    });
+    t.cases += 33;
+    t.calls += 66;
+    match r {
+        Err(p) => out.push((format!("panic@{}:huge-count", p.location), format!("read_bytes with a large count panicked: {}", p.message), json!({"part": "huge"}))),
+        Ok(bad) => {
+            for b in bad {
+                out.push(("huge-count".to_string(), b, json!({"part": "huge"})));
+            }
+        }
+    }
+    out
+}
+
 // ------------------------------------------------------------------------------------
 
 fn explore(ctx: &Ctx) -> Outcome {
@@ -1074,6 +1289,16 @@ fn explore(ctx: &Ctx) -> Outcome {
     for e in [End::Little, End::Big] {
         let mut t = Tally::new();
         for (sig, summary, case) in run_large(e, &mut t) {
+            t.violate(sig, summary, case);
+        }
+        total.absorb(t);
+    }
+    let ts = run_streams(ctx.tier);
+    let stream_cases = ts.cases;
+    total.absorb(ts);
+    {
+        let mut t = Tally::new();
+        for (sig, summary, case) in run_huge_counts(&mut t) {
             t.violate(sig, summary, case);
         }
         total.absorb(t);
@@ -1107,9 +1332,9 @@ fn explore(ctx: &Ctx) -> Outcome {
         total.samples.push(s);
     }
     let mut o = total.into_outcome(
-        "(a) grid: archive sizes 0..=9 (plus one 70 000-byte archive probed around addresses/lengths 255, 65 535 and its end) × both endiannesses × every typed/bytes/annotation accessor × addresses {0..=size+2, 2^31±1, 2^32±1, isize::MAX±1, usize::MAX-8..=usize::MAX} × read_bytes lengths {0..=size+1, isize::MAX, usize::MAX, usize::MAX-address+{0,1,2}} × values (all 256 / all 65 536 in range / walking-one-zero patterns / f32 incl. NaN payloads); oracle: Ok iff non-empty range inside the data (u128 arithmetic), Err ⇒ nothing observable changed, Ok write ⇒ exactly the addressed bytes in the archive's endianness and identical bits on read-back, annotation accessors never change raw bytes. (b) BFS over (archive content, reader cursor, writer cursor) of a 9-byte archive, every stream read/write/seek/skip interleaved with positional calls; oracle: stream op ≡ positional op at the cursor, cursor advances by the width iff Ok, label accesses never move it. non-trivial = successful in-range accesses",
+        "(a) grid: archive sizes 0..=9 (plus one 70 000-byte archive probed around addresses/lengths 255, 65 535 and its end) × both endiannesses × every typed/bytes/annotation accessor × addresses {0..=size+2, 2^31±1, 2^32±1, isize::MAX±1, usize::MAX-8..=usize::MAX} × read_bytes lengths {0..=size+1, isize::MAX, usize::MAX, usize::MAX-address+{0,1,2}} × values (all 256 / all 65 536 in range / walking-one-zero patterns / f32 incl. NaN payloads); oracle: Ok iff non-empty range inside the data (u128 arithmetic), Err ⇒ nothing observable changed, Ok write ⇒ exactly the addressed bytes in the archive's endianness and identical bits on read-back, annotation accessors never change raw bytes. (b) BFS over (archive content, reader cursor, writer cursor) of a 9-byte archive, every stream read/write/seek/skip interleaved with positional calls; oracle: stream op ≡ positional op at the cursor, cursor advances by the width iff Ok, label accesses never move it. (c) ONE reader and ONE writer object kept across every sequence of ≤ 3 (thorough 4) accesses from {u8, u16, i16, u32, f32, bytes(3), bytes(5), skip 1, skip 61, seek −2, seek +62} started at every position 0..=202 of a 200-byte archive and around every power of two up to 65 536 and the end of a 70 000-byte archive, each step compared with the positional access; read_bytes counts around 2^16, 2^20, 2^24 on a 17 MiB archive, stream vs positional. non-trivial = successful in-range accesses",
         true,
-        vec![("grid_cases", json!(grid_cases)), ("cursor_bfs_states", json!(bfs_states)), ("cursor_bfs_transitions", json!(bfs_trans)), ("cursor_bfs_depth", json!(depth)), ("cursor_states_per_depth", json!(per_depth)), ("cursor_witnesses", json!(wit))],
+        vec![("long_lived_stream_sequences", json!(stream_cases)), ("grid_cases", json!(grid_cases)), ("cursor_bfs_states", json!(bfs_states)), ("cursor_bfs_transitions", json!(bfs_trans)), ("cursor_bfs_depth", json!(depth)), ("cursor_states_per_depth", json!(per_depth)), ("cursor_witnesses", json!(wit))],
     );
     o.coverage.states += bfs_states;
     o.coverage.transitions += bfs_trans;
@@ -1139,6 +1364,17 @@ fn replay(_ctx: &Ctx, case: &Value) -> Vec<Violation> {
             }
         }
         return vec![];
+    }
+    if case["part"] == "stream" {
+        let size = case["size"].as_u64().unwrap_or(200) as usize;
+        let start = case["start"].as_u64().unwrap_or(0) as usize;
+        let seq: Vec<Sop> = case["seq"].as_array().map(|a| a.iter().map(|i| SOPS[i.as_u64().unwrap_or(0) as usize % SOPS.len()]).collect()).unwrap_or_default();
+        let mut t = Tally::new();
+        return stream_case(size, e, start, &seq, &mut t).map(|(sig, summary)| vec![Violation { sig, summary, case: case.clone() }]).unwrap_or_default();
+    }
+    if case["part"] == "huge" {
+        let mut t = Tally::new();
+        return run_huge_counts(&mut t).into_iter().map(|(sig, summary, c)| Violation { sig, summary, case: c }).collect();
     }
     if case["part"] == "large" {
         let mut t = Tally::new();
